@@ -63,6 +63,7 @@ type c08Case struct {
 	rcode        int
 	tc           bool
 	records      bool
+	upOPT        bool
 	maxTTL       int // config value, 0 = default
 	probe        int
 }
@@ -104,6 +105,7 @@ func c08Scenario(c *choice.Ctx, rep *report.R, prop string) {
 		cs.ttlAn = ttls[c.Choose(len(ttls), "ttl-answer")]
 		cs.ttlNs = ttls[c.Choose(len(ttls), "ttl-authority")]
 	}
+	cs.upOPT = c.Choose(2, "upstream-reply-carries-opt") == 1
 	cs.probe = c.Choose(8, "probe")
 	maxTTL := 6 * time.Hour
 	if cs.maxTTL > 0 {
@@ -160,6 +162,11 @@ func c08Scenario(c *choice.Ctx, rep *report.R, prop string) {
 			reply.Ar = []refdns.RR{refdns.A(refdns.N("ns", "example", "test"), cs.ttlAn, 192, 0, 2, 53)}
 		}
 	}
+	// the upstream's reply carries its own OPT record (it answers an EDNS0 query): the record is not part of the answer - it has no
+	// TTL - and changes neither what is cached nor for how long
+	if cs.upOPT {
+		reply.Ar = append(reply.Ar, refdns.OPT(1232, 0x8000, refdns.Option(10, []byte{1, 2, 3, 4, 5, 6, 7, 8})))
+	}
 	t0 := time.Now()
 	uq.Reply(reply.Encode(false))
 	wait()
@@ -195,6 +202,14 @@ func c08Scenario(c *choice.Ctx, rep *report.R, prop string) {
 			}
 			secs := uint32(elapsed / time.Second)
 			chk := func(sec string, got, orig []refdns.RR) {
+				// (the upstream's own OPT record is not part of the answer: the client, which sent no OPT, gets none)
+				var o2 []refdns.RR
+				for _, rr := range orig {
+					if rr.Type != refdns.TypeOPT {
+						o2 = append(o2, rr)
+					}
+				}
+				orig = o2
 				if len(got) != len(orig) {
 					fail("cached-records", fmt.Sprintf("%s: %d records, originally %d", sec, len(got), len(orig)))
 					return
@@ -371,7 +386,7 @@ func c08History(c *choice.Ctx, rep *report.R) {
 func TestVerifC08(t *testing.T) {
 	rep := report.New("C08 cache ageing and expiry")
 	defer rep.Write()
-	rep.Rule = fmt.Sprintf("E3: real router + real otter memory cache + scripted upstream under the exact virtual clock; full product maximum_ttl {default,10} x rcode {0,2,3,5} x TC {0,1} x {no records, records with (answer ttl, authority ttl) in %v^2} "+
+	rep.Rule = fmt.Sprintf("E3: real router + real otter memory cache + scripted upstream under the exact virtual clock; full product maximum_ttl {default,10} x rcode {0,2,3,5} x TC {0,1} x upstream reply {without, with} an OPT record of its own x {no records, records with (answer ttl, authority ttl) in %v^2} "+
 		"x probe instant {+0.4s,+1s,+1.6s, L-1.6s, L-0.4s, L+0.6s, L+1.9s, L+2.1s} (L = lifetime by the property's table); plus histories {failed/malformed first exchange -> repeat; positive(100s) -> hit at 80s -> refresh answered %v -> hit at 85s}; "+
 		"oracle: a response without waiting for an upstream exchange has every ttl in [1, max(1, upstream - floor(elapsed))], arrives before L+2s, equals the relayed records; TC and failed exchanges are never cached; negatives never displace a live positive entry; "+
 		"(C07) repeat with >1s of lifetime left is a cache hit", c08TTLs(), []string{"servfail", "nxdomain", "refused", "error", "positive-new-ttl", "tc"})
